@@ -4,6 +4,7 @@ Import ListNotations.
 From PV Require Import Fort.Syntax Fort.Sem Fort.Facts C01.Model C01.SelectProofs C01.WhereLocal
   C01.WhereExec C01.Refuted C01.Corr    (* Corr: the executable correspondence check, no theorem *)
   C01.Compose C01.Compose2 C01.Compose3.
+From PV Require C01.Stride.          (* not imported: C01.Model2 re-uses the names of C01.Model *)
 Open Scope Z_scope.
 
 (* SELECT CASE -> IF chain: for ALL selector expressions, clause lists (value lists, ranges, open
@@ -150,3 +151,36 @@ Example C01_program_nonvacuous :
   forallb (wf [pe_x]) pe_prog = true /\ dcb_ok Today (fun _ => None) pe_store /\ pe_check = true.
 Proof. exact program_example. Qed.
 Print Assumptions C01_program_nonvacuous.
+
+(* strided read-only sections a(lo:hi:st) in a 1-D WHERE (coq/C01/Model2.v, WhereLocal2.v, WhereExec2.v:
+   the 1-D development over an expression type with the extra operand).  The statement
+   [Stride.strided_sound_stmt] is, with the definitions of C01.Model2:
+     forall md dc w s s' ss, safe_where w = true ->
+       (forall a0, wfirst (wmask w) = Some a0 -> dc_ok md dc s a0) ->
+       where_sem w s = Some s' -> lower_where md dc w = Lowered ss ->
+       exists f s'' tr, exec f ss s = Ok s'' tr CNormal /\ bnd s'' = bnd s' /\
+         (forall c, fst c <> wx w -> val s'' c = val s' c) /\ outputs tr = []
+   where [safe_where] additionally demands of a strided operand: not assigned in the construct, and the
+   repaired index lower + (widx - 1) * stride (or stride 1). *)
+Theorem C01_lower_where_strided_sound_partial : PV.C01.Stride.strided_sound_stmt.
+Proof. exact PV.C01.Stride.strided_sound. Qed.
+Print Assumptions C01_lower_where_strided_sound_partial.
+
+(* REFUTED for the pre-fix index (stride dropped; finding where/strided-section-step-dropped, repaired in
+   /repo by b189692): WHERE (b(:) >= 0) b(:) = a(2:10:2) *)
+Theorem C01_lower_where_strided_refuted :
+  fst (PV.C01.Stride.sB, [2]) <> PV.C01.Model2.wx (PV.C01.Stride.wS false) /\
+  (exists s' ss,
+     PV.C01.Model2.where_sem (PV.C01.Stride.wS false) PV.C01.Stride.sS = Some s' /\
+     PV.C01.Model2.lower_where PV.C01.Model2.Today (fun _ => None) (PV.C01.Stride.wS false) = PV.C01.Model2.Lowered ss /\
+     ~ (exists f s'' tr ctl, exec f ss PV.C01.Stride.sS = Ok s'' tr ctl /\
+                             val s'' (PV.C01.Stride.sB, [2]) = val s' (PV.C01.Stride.sB, [2]))) /\
+  PV.C01.WhereExec2.safe_where (PV.C01.Stride.wS false) = false /\
+  PV.C01.Stride.differs PV.C01.Model2.Today (fun _ => None) (PV.C01.Stride.wS true) PV.C01.Stride.sS (PV.C01.Stride.sB, [2]) 100 = false.
+Proof. exact PV.C01.Stride.strided_refuted. Qed.
+Print Assumptions C01_lower_where_strided_refuted.
+
+Example C01_strided_nonvacuous :
+  PV.C01.WhereExec2.safe_where (PV.C01.Stride.wS true) = true /\ PV.C01.Stride.strided_check = true.
+Proof. split; [exact (proj1 PV.C01.Stride.strided_example)|exact (proj2 (proj2 (proj2 PV.C01.Stride.strided_example)))]. Qed.
+Print Assumptions C01_strided_nonvacuous.
